@@ -60,6 +60,9 @@ func c03(args []string) error {
 		c.DisableSeencheck = !seen
 		c.MaxRetry = 1
 		c.HTTPTimeout = 4
+		if async {
+			c.HTTPTimeout = -1 // the default: no request timeout (nothing self-heals after a few seconds)
+		}
 		c.WARCDiscardStatus = []int{418}
 		if proxy {
 			c.Proxy = "socks5://" + px.Addr()
